@@ -589,6 +589,11 @@ mod xen {
     /// call itself is the access, so at the moment it is issued its buffer must lie inside a
     /// mapping that is live then, and the data that arrives must be the guest's.
     fn fd_transfers(ctx: &Ctx, r: &Region, state: &[u8], thorough: bool) -> u64 {
+        fd_transfers_sized(ctx, r, state, thorough, false)
+    }
+
+    /// `big`: a region of more than a MiB, transfers around and beyond 2^20 bytes in one call.
+    fn fd_transfers_sized(ctx: &Ctx, r: &Region, state: &[u8], thorough: bool, big: bool) -> u64 {
         use crate::interpose::{net_mapped, peek_log, start_recording, stop_recording, with_io_handler, IoAnswer, IoReq};
         use std::io::{Read, Seek, SeekFrom, Write};
         use std::os::fd::AsRawFd;
@@ -604,6 +609,10 @@ mod xen {
         if thorough {
             offs.extend([7, 4094, 4100, 8191.min(l - 1), l - 4097]);
             counts.extend([3, 8, 16, 4095, 8192, l]);
+        }
+        if big {
+            offs = vec![0, 4096 + 3, l - (1 << 20) - 5];
+            counts = vec![1 << 20, (1 << 20) + 1, (1 << 20) + 4096, l];
         }
         offs.sort();
         offs.dedup();
@@ -638,6 +647,9 @@ mod xen {
                                         let a = q.buf as usize;
                                         if !space.iter().any(|(s, e)| *s <= a && a + q.count <= *e) {
                                             o2.borrow_mut().push(format!("{}(2) of {} bytes at {:#x}; mappings live at that moment: {:x?}", if q.is_read { "read" } else { "write" }, q.count, a, space));
+                                            // (not forwarded: the kernel would store into, or
+                                            // take from, whatever lies behind the window)
+                                            return IoAnswer::Err(libc::EFAULT);
                                         }
                                     }
                                     IoAnswer::Pass
@@ -834,6 +846,25 @@ mod xen {
             if !emu.live().is_empty() {
                 ctx.fail(&format!("C17/xen/{}/window-left-after-drop", kind), &format!("{:?}", emu.live()), json!({"region": kind}));
                 emu.state.borrow_mut().live.clear();
+            }
+        }
+        // one on-demand region of more than a MiB: descriptor transfers beyond 2^20 bytes
+        drop(emu);
+        {
+            let emu = Emu::new(700);
+            let len = (1usize << 20) + 9 * 4096;
+            match emu.grant_region(8, len, true) {
+                Ok(reg) => {
+                    emu.take_log();
+                    let r = Region { emu: &emu, reg, first_page: 8, len, kind: "grant-on-demand" };
+                    let init: Vec<u8> = (0..len).map(|i| 0x10 + ((i * 7 + i / 4096) % 0x60) as u8).collect();
+                    fd_runs += fd_transfers_sized(ctx, &r, &init, thorough, true);
+                    drop(r);
+                    if !emu.live().is_empty() {
+                        ctx.fail("C17/xen/grant-on-demand/window-left-after-drop", &format!("{:?}", emu.live()), json!({"region": "grant-on-demand, 1 MiB + 9 pages"}));
+                    }
+                }
+                Err(e) => ctx.machinery(&format!("cannot create the large on-demand region: {}", e)),
             }
         }
         ctx.extra("max_simultaneous_windows_sum", json!(windows_total));
